@@ -173,6 +173,11 @@ fn classify(op: &str, imp: &str, model: &str) -> String {
     if matches!(op, "matrix" | "decaps" | "covers" | "c08" | "pke_dec" | "hdr_dec" | "parse" | "trace_check") {
         return "behaviour".into();
     }
+    // serialisation of an object: the implementation itself says that the object read back differs from the original, or
+    // that the announced length is not the number of bytes written - outcomes C13 talks about
+    if matches!(op, "ser" | "ser_clr") && (imp.contains("rt=0") || imp.contains("!=")) {
+        return "behaviour".into();
+    }
     // the flavour of an encapsulation made for the same number of targets: the model's flavour is, by
     // `C11.encaps_hybrid_iff_all`, the conjunction of the flavours of the targeted rights, so a different
     // flavour on the implementation is an outcome C11 talks about, not a mere difference of state
